@@ -441,6 +441,21 @@ class PVLEncoder(object):
     def encode_time(value: datetime.time) -> str:
         """Returns a ``str`` formatted as a PVL Time based
         on the *value* object according to the rules of this encoder.
+
+        PVL Date/Time Values are always in UTC, so a *value* with
+        any other UTC offset cannot be written and raises ValueError.
+        """
+        if value.utcoffset():
+            raise ValueError(
+                "PVL times are in UTC and cannot carry a time zone offset, "
+                f"convert this value to UTC first: {value}"
+            )
+        return PVLEncoder.encode_time_fields(value)
+
+    @staticmethod
+    def encode_time_fields(value: datetime.time) -> str:
+        """Returns a ``str`` with the hours, minutes, and (when non-zero)
+        seconds of *value*, without any time zone information.
         """
         s = f"{value:%H:%M}"
 
